@@ -210,7 +210,12 @@ def run(tier):
         if fresh != later:
             v.violation("C16:mirror-graph-depends-on-an-earlier-graph-call", f"{text}: gen_mirror().gen_reaction_graph() differs when gen_reaction_graph() was called on the original first",
                         {"instance": text})
-    v.coverage = {"mirror_graphs_checked_for_history": n_mirror, "states": states, "transitions": trans, "traces_validated_against_impl": len(results), "instances": len(results),
+    # the mirror operation itself (spec/Mirror.tla; not a clause of C16: differences are divergences in the evidence)
+    from . import mirror as MR
+    mdiv, mcov = MR.run(g, mols)
+    if mdiv:
+        v.notes.append("gen_mirror differs from spec/Mirror.tla (not a clause of C16): " + "; ".join(mdiv[:5]))
+    v.coverage = {"mirror_operation": mcov, "mirror_graphs_checked_for_history": n_mirror, "states": states, "transitions": trans, "traces_validated_against_impl": len(results), "instances": len(results),
                   "edges_compared": n_edges, "model_invariants": ["IGraph (law at every decision = out-edges of the chosen node)", "Normalised", "WeightEdgesCompatible"],
                   "samples": samples}
     v.assumptions = ["edges of probability zero are not edges (ignored on both sides)",
